@@ -1,19 +1,31 @@
 /-
-Shared definitions of the regular-expression ties (see KlogV/Props/Rx/README in DESIGN.md §0.9).
+Shared definitions of the regular-expression ties (DESIGN.md §0.9).
+A pattern of the Go code is looked up by its LANGUAGE, not by its name: renaming or moving a pattern,
+or rewriting it into an equivalent one, keeps the tie; changing what it matches, where a group sits,
+or an anchor, breaks it.
 -/
 import KlogV.Regex.Equiv
 import KlogV.Regex.Expect
 namespace KlogV.Regexes
 open KlogV.Rx
 
-/-- same marked language, same anchors, nothing untranslatable -/
-abbrev Tie (gen : Re) (anch : Bool × Bool) (uns : List String) (expect : Re) (a e : Bool) : Prop :=
-  equivCheck 2000 (mark gen) (mark expect) = true ∧ anch = (a, e) ∧ uns = []
+/-- an extracted pattern: name (for diagnostics), expression, (anchored at start, anchored at end),
+constructs that could not be translated -/
+abbrev Extracted := String × Re × (Bool × Bool) × List String
 
-/-- what a tie means: under every interpretation of the named classes the extracted and the expected
-expression match the same words, capture-group boundaries included -/
-theorem tie_sound {gen expect : Re} {anch uns a e} (h : Tie gen anch uns expect a e) :
-    ∀ (env : Env) (w : List Sym), Matches env (mark gen) w ↔ Matches env (mark expect) w :=
-  equivCheck_sound 2000 _ _ h.1
+/-- some pattern of the code is fully translated, has these anchors and the same MARKED language as `expect` -/
+def tied (all : List Extracted) (expect : Re) (a e : Bool) : Bool :=
+  all.any fun g => g.2.2.1 == (a, e) && g.2.2.2.isEmpty && equivCheck 2000 (mark g.2.1) (mark expect)
+
+/-- what a tie means: the code contains a pattern that, under every interpretation of the named classes,
+matches the same words as the expected one, capture-group boundaries included -/
+theorem tie_sound {all : List Extracted} {expect : Re} {a e : Bool} (h : tied all expect a e = true) :
+    ∃ g ∈ all, g.2.2.1 = (a, e) ∧ g.2.2.2 = [] ∧
+      ∀ (env : Env) (w : List Sym), Matches env (mark g.2.1) w ↔ Matches env (mark expect) w := by
+  unfold tied at h
+  rw [List.any_eq_true] at h
+  obtain ⟨g, hg, hc⟩ := h
+  simp only [Bool.and_eq_true, beq_iff_eq, List.isEmpty_iff] at hc
+  exact ⟨g, hg, hc.1.1, hc.1.2, equivCheck_sound 2000 _ _ hc.2⟩
 
 end KlogV.Regexes
